@@ -1286,6 +1286,7 @@ class ThreadsafeForwardingResult(TestResult):
         self.result = ExtendedToOriginalDecorator(target)
         self.semaphore = semaphore
         self._test_start = None
+        self._in_test = False
         self._global_tags = set(), set()
         self._test_tags = set(), set()
 
@@ -1348,6 +1349,11 @@ class ThreadsafeForwardingResult(TestResult):
 
     def startTestRun(self):
         super().startTestRun()
+        # Tags do not survive into a new run.
+        self._test_start = None
+        self._in_test = False
+        self._global_tags = set(), set()
+        self._test_tags = set(), set()
         self.semaphore.acquire()
         try:
             self.result.startTestRun()
@@ -1390,7 +1396,15 @@ class ThreadsafeForwardingResult(TestResult):
 
     def startTest(self, test):
         self._test_start = self._now()
+        self._in_test = True
         super().startTest(test)
+
+    def stopTest(self, test):
+        # Tag changes made inside the test end with it, including those made
+        # after its outcome was forwarded.
+        self._in_test = False
+        self._test_tags = set(), set()
+        super().stopTest(test)
 
     def wasSuccessful(self):
         return self.result.wasSuccessful()
@@ -1398,7 +1412,7 @@ class ThreadsafeForwardingResult(TestResult):
     def tags(self, new_tags, gone_tags):
         """See `TestResult`."""
         super().tags(new_tags, gone_tags)
-        if self._test_start is not None:
+        if self._in_test:
             self._test_tags = _merge_tags(self._test_tags, (new_tags, gone_tags))
         else:
             self._global_tags = _merge_tags(self._global_tags, (new_tags, gone_tags))
